@@ -105,11 +105,6 @@ impl EventGen for LoopElement {
                     bbox.extend(bb);
                 }
 
-                if let LoopType::Until(expr) = &loop_def.loop_type {
-                    if eval_condition(expr, context)? {
-                        break;
-                    }
-                }
                 iteration += 1;
                 loop_var_value += loop_step;
                 if iteration > context.config.loop_limit {
@@ -117,6 +112,11 @@ impl EventGen for LoopElement {
                         iteration,
                         context.config.loop_limit,
                     ));
+                }
+                if let LoopType::Until(expr) = &loop_def.loop_type {
+                    if eval_condition(expr, context)? {
+                        break;
+                    }
                 }
             }
         }
